@@ -171,7 +171,7 @@ ColLeaf(f, lf, col) ==
            typ == IF mixed THEN "float" ELSE col.typ
        IN
        IF ~mixed /\ col.typ # ac.typ THEN St("err")
-       ELSE IF col.typ = "enum" /\ col.vals # ac.vals THEN St("err")
+       ELSE IF col.typ = "enum" /\ lf.cmpk # "fn2" /\ col.vals # ac.vals THEN St("err")   \* built-ins compare ranks
        ELSE IF lf.cmpk = "fn2" THEN
             IF lf.argt # FnType(typ) THEN St("err")
             ELSE LET t == [r \in 1..f.n |-> Lookup2(lf.tbl, lhs(r), rhs(r))] IN
